@@ -36,14 +36,21 @@ def run(ctx):
     P = 'C11'
     b = ctx.body('packet::signature::types::serialize_for_hashing')
     if b is not None:
-        t = consts_by_arm(b, 'KeyVersion', r'WriteBytesExt::write_u8$|WriteBytesExt::write_u16$|WriteBytesExt::write_u32$')
+        # RFC 9580 5.2.4: "When a v4 signature is made over a key ... 0x99 ... When a v6 signature is made over a key ... 0x9B": the
+        # framing follows the version of the SIGNATURE (a third-party signature may be made over a key of another version)
+        t = consts_by_arm(b, 'SignatureVersion', r'WriteBytesExt::write_u8$|WriteBytesExt::write_u16$|WriteBytesExt::write_u32$')
         got = {arm: ev for arm, ev in t.items()}
+        from rules.common import enum_switch_info
+        by_key = [i for i, _ in b.switches() if (enum_switch_info(b, i) or ('',))[0].endswith('KeyVersion')]
+        ctx.check(P + ':key-frame:selected-by-signature-version', 'R-table', 'the key framing is selected by the version of the signature, not of the key that is signed',
+                  bool(got) and not by_key, function=b.path, site=site(b, by_key[0]) if by_key else None,
+                  missing=None if (got and not by_key) else 'the framing octet / length width depends on KeyVersion: a v6 signature over a v4 key (third-party certification) is hashed with 0x99 and a two-octet length instead of 0x9B and four octets')
         want_old = [('write_u8', (0x99,)), ('write_u16', ())]
         want_v6 = [('write_u8', (0x9B,)), ('write_u32', ())]
         old = [ev for arm, ev in got.items() if set(arm) == {'V2', 'V3', 'V4'}]
         v6 = [ev for arm, ev in got.items() if arm == ('V6',)]
-        ctx.check(P + ':key-frame:v4', 'R-table', 'key framing for v2/v3/v4 keys is 0x99 followed by a 2-octet length', old == [want_old], function=b.path, table={'|'.join(k): v for k, v in got.items()})
-        ctx.check(P + ':key-frame:v6', 'R-table', 'key framing for v6 keys is 0x9B followed by a 4-octet length', v6 == [want_v6], function=b.path)
+        ctx.check(P + ':key-frame:v4', 'R-table', 'key framing under a v2/v3/v4 signature is 0x99 followed by a 2-octet length', old == [want_old], function=b.path, table={'|'.join(k): v for k, v in got.items()})
+        ctx.check(P + ':key-frame:v6', 'R-table', 'key framing under a v6 signature is 0x9B followed by a 4-octet length', v6 == [want_v6], function=b.path)
         body = call_blocks(b, r'Serialize::to_writer$')
         hdr = call_blocks(b, r'WriteBytesExt::write_u8$')
         ok, _ = must_pass(b, body, hdr) if body else (False, None)
